@@ -446,6 +446,78 @@ fn degenerate_build_case<D0: crate::Distance>(name: &'static str) -> Vec<String>
     }
 }
 
+fn mapfull_sweep_case() -> Vec<String> {
+    // A build that shrinks the forest (8 trees -> 2) with pending deletions and insertions is replayed
+    // with 0, 1, 2, ... free pages left in the LMDB map: every outcome must be Ok (and then a valid
+    // forest) or the out-of-space error itself.
+    use heed::MdbError;
+    let mut verdict = vec![];
+    let page = 4096usize;
+    let base = tempfile::tempdir().unwrap();
+    let open = |path: &std::path::Path, size: usize| {
+        let env = unsafe { EnvOpenOptions::new().map_size(size).open(path) }.unwrap();
+        let mut wtxn = env.write_txn().unwrap();
+        let db: Database<D> = env.create_database(&mut wtxn, None).unwrap();
+        wtxn.commit().unwrap();
+        (env, db)
+    };
+    let n_items = 300u32;
+    let vec_of = |i: u32| -> Vec<f32> { vec![((i * 37) % 101) as f32 - 50.0, ((i * 53) % 97) as f32 - 48.0, (i % 7) as f32, 1.0] };
+    {
+        let (env, db) = open(base.path(), 200 * 1024 * 1024);
+        let mut wtxn = env.write_txn().unwrap();
+        let w = Writer::<D>::new(db, 0, 4);
+        for i in 0..n_items {
+            w.add_item(&mut wtxn, i, &vec_of(i)).unwrap();
+        }
+        let mut rng = StdRng::seed_from_u64(10);
+        w.builder(&mut rng).n_trees(8).build(&mut wtxn).unwrap();
+        wtxn.commit().unwrap();
+        env.prepare_for_closing().wait();
+    }
+    let data_len = std::fs::metadata(base.path().join("data.mdb")).unwrap().len() as usize;
+    let data_len = data_len.div_ceil(page) * page;
+    let (mut successes, mut map_full, mut free) = (0, 0, 0usize);
+    while successes < 3 && free < 1500 && verdict.is_empty() {
+        let dir = tempfile::tempdir().unwrap();
+        std::fs::copy(base.path().join("data.mdb"), dir.path().join("data.mdb")).unwrap();
+        let (env, db) = open(dir.path(), data_len + free * page);
+        let mut wtxn = env.write_txn().unwrap();
+        let w = Writer::<D>::new(db, 0, 4);
+        let mut prepared = true;
+        for i in (0..n_items).step_by(7) {
+            prepared &= w.del_item(&mut wtxn, i).is_ok();
+        }
+        for i in n_items..n_items + 20 {
+            prepared &= w.add_item(&mut wtxn, i, &vec_of(i)).is_ok();
+        }
+        if prepared {
+            let mut rng = StdRng::seed_from_u64(11);
+            let r = std::panic::catch_unwind(std::panic::AssertUnwindSafe(|| w.builder(&mut rng).n_trees(2).build(&mut wtxn)));
+            match r {
+                Err(_) => verdict.push(format!("with {free} free pages the build panicked")),
+                Ok(Ok(())) => {
+                    if let Err(e) = check_inv(&wtxn, db, 0) {
+                        verdict.push(format!("with {free} free pages the build reports success over an invalid forest: {e}"));
+                    }
+                    successes += 1;
+                }
+                Ok(Err(crate::Error::Heed(heed::Error::Mdb(MdbError::MapFull)))) => map_full += 1,
+                Ok(Err(other)) => verdict.push(format!(
+                    "with {free} free pages the build ran out of space but reported `{other}` instead of MDB_MAP_FULL")),
+            }
+        }
+        drop(wtxn);
+        env.prepare_for_closing().wait();
+        free += 1;
+    }
+    if verdict.is_empty() && map_full < 3 {
+        panic!("the sweep did not exercise the out-of-space path ({map_full} times): replay harness problem");
+    }
+    println!("STEP mapfull sweep: {map_full} out-of-space outcomes, {successes} successes, {free} runs");
+    verdict
+}
+
 #[test]
 fn verif_replay() {
     let path = std::env::var("VERIF_SCENARIO").expect("VERIF_SCENARIO");
@@ -722,6 +794,9 @@ fn run_one(text: &str) {
                 verdict.extend(degenerate_build_case::<Cosine>("cosine"));
                 verdict.extend(degenerate_build_case::<DotProduct>("dot-product"));
                 verdict.extend(degenerate_build_case::<BinaryQuantizedCosine>("binary quantized cosine"));
+            }
+            "mapfull_sweep" => {
+                verdict.extend(mapfull_sweep_case());
             }
             "budget_equiv" => {
                 // leaving the budget unset with oversampling=o must equal search_k = count * n_trees * o
